@@ -17,7 +17,8 @@ BOUNDS = {
              'valid-UTF-8 vocabulary entries (first / middle / last regular token, every merge, the first six and the last special token)',
     'thorough': 'same plus pad_to_multiple_of 1 / 512 and BPE tables of up to 5 entries',
 }
-OUTSIDE = ['HuggingFace and dummy tokenizers', 'special tokens that are prefixes of one another (regex alternation in hash '
+OUTSIDE = ['special tokens whose spelling equals a regular token (e.g. the one-byte special token "|" of a byte tokenizer): the vocabulary then '
+           'lists the spelling twice and token_to_id returns the regular id, so the bijection the property speaks of is not defined', 'HuggingFace and dummy tokenizers', 'special tokens that are prefixes of one another (regex alternation in hash '
            'order: unspecified)', 'msgpack loading of the merge file (the table is supplied in memory)']
 ASSUMPTIONS = ['HashMap iteration order fixed to insertion order (the consulted maps are only used as maps)']
 KNOWN_MATCHERS = {}
@@ -32,6 +33,8 @@ BPE_TABLES = {
 def shapes(tier):
     out = []
     for sp in SPECIALS:
+        if sp == 'onebyte':
+            continue      # a special token spelled like a regular token: token <-> id cannot be a bijection (outside, see OUTSIDE)
         for g in (False, True):
             for pad_to in ((None, 128) if tier == 'quick' else (None, 1, 128, 512)):
                 if g and pad_to:
